@@ -14,6 +14,9 @@
 (***************************************************************************)
 EXTENDS EncoderMonitor
 
+\* the source form of the model instance (MC_Enc instantiates it with its constant Source)
+CONSTANT EncSource
+
 \* call context: src = items, pos = index of next item, ru = units read, rem = cap - written, out = bytes written
 ECtx(src, cap, last) == [src |-> src, pos |-> 0, ru |-> 0, cap |-> cap, w |-> 0, out |-> <<>>, last |-> last]
 ERem(c) == c.cap - c.w
@@ -97,13 +100,61 @@ IsoEncLoop(st, c) ==
           ELSE IsoEncLoop(StateOfEsc(a1.v), EWr(c, a1.v))                  \* escape written, character un-read
 
 (***************************************************************************)
+(* Utf8Encoder: from UTF-8 a memcpy backed up to a sequence boundary, from *)
+(* UTF-16 convert_utf16_to_utf8_partial - both are "as many whole          *)
+(* characters as fit".                                                     *)
+(***************************************************************************)
+RECURSIVE Utf8EncLoop(_)
+Utf8EncLoop(c) ==
+  IF ESrcEmpty(c) THEN ERet("", "I", 0, c)
+  ELSE LET b == Utf8Encode(EPeek(c).cp) IN
+    IF Len(b) > ERem(c) THEN ERet("", "O", 0, c) ELSE Utf8EncLoop(EWr(EAdv(c), b))
+
+(***************************************************************************)
+(* UserDefinedEncoder: encoder_functions! with check_space_one.            *)
+(***************************************************************************)
+RECURSIVE UserDefEncLoop(_)
+UserDefEncLoop(c) ==
+  IF ESrcEmpty(c) THEN ERet("", "I", 0, c)
+  ELSE IF ERem(c) < 1 THEN ERet("", "O", 0, c)
+  ELSE LET cp == EPeek(c).cp
+           b == ScalarBytes("x-user-defined", cp)
+       IN  IF b = <<>> THEN ERet("", "U", cp, EAdv(c)) ELSE UserDefEncLoop(EWr(EAdv(c), b))
+
+(***************************************************************************)
+(* SingleByteEncoder::encode_from_utf16_raw (after fix f6848a4): one byte  *)
+(* per unit, bounded by min(src units, dst); an unmappable unit ends the   *)
+(* call (a surrogate pair is looked at across the bound, in src).          *)
+(***************************************************************************)
+RECURSIVE Sb16Loop(_, _, _)
+Sb16Loop(enc, c, length) ==      \* c.ru = units converted so far
+  IF c.ru >= length THEN ERet("", IF length < SrcUnitsFrom(c.src, 1) THEN "O" ELSE "I", 0, c)
+  ELSE LET it == EPeek(c)
+           b == ScalarBytes(enc, it.cp)
+       IN  IF b # <<>> /\ it.ul = 1 THEN Sb16Loop(enc, EWr(EAdv(c), b), length)
+           ELSE ERet("", "U", it.cp, EAdv(c))
+
+SbEncode16(enc, c) ==
+  LET srcUnits == SrcUnitsFrom(c.src, 1)
+      length == IF c.cap < srcUnits THEN c.cap ELSE srcUnits
+  IN  Sb16Loop(enc, c, length)
+
+(***************************************************************************)
 (* VariantEncoder dispatch (without replacement)                           *)
 (***************************************************************************)
 EncExact(enc, source) == enc = "ISO-2022-JP" \/ (ACExact(enc) /\ ~(Family(enc) = "sb" /\ source = "utf16"))
 
-RawEncode(enc, st, src, cap, last) ==
-  LET c == ECtx(src, cap, last) IN
-  IF enc = "ISO-2022-JP" THEN IsoEncLoop(st, c) ELSE ACOuter(enc, c)
+\* source = "utf8" / "utf16" matters only for the single-byte encoders (two different loops)
+RawEncodeFrom(enc, st, src, cap, last, source) ==
+  LET c == ECtx(src, cap, last)
+      f == Family(enc)
+  IN  IF enc = "ISO-2022-JP" THEN IsoEncLoop(st, c)
+      ELSE IF f = "utf8" THEN Utf8EncLoop(c)
+      ELSE IF f = "userdef" THEN UserDefEncLoop(c)
+      ELSE IF f = "sb" /\ source = "utf16" THEN SbEncode16(enc, c)
+      ELSE ACOuter(enc, c)
+
+RawEncode(enc, st, src, cap, last) == RawEncodeFrom(enc, st, src, cap, last, EncSource)
 
 (***************************************************************************)
 (* Encoder::encode_from_utf8 / encode_from_utf16: the NCR wrapper.         *)
